@@ -7,6 +7,7 @@ def build(u):
     u.raw("#![feature(sized_hierarchy)]\nuse vstd::prelude::*;\nverus! {\n")
     u.raw("global size_of usize == 8;   // assumption (listed): 64-bit target, `as usize` of a u64 is lossless\n")
     u.env("prelude.rs")
+    u.env("std_extra.rs")
     u.canary_decls()
     u.env("anyhow.rs")
     u.env("bytes.rs")
